@@ -98,6 +98,7 @@ static int selecttimeout;		/* RFC says timeout minimum 5sec */
 static int lazymode;
 static long send_ping_soon;
 static time_t lastdownstreamtime;
+static time_t lastrawping;		/* raw mode: last keepalive sent */
 static long send_query_sendcnt = -1;
 static long send_query_recvcnt = 0;
 static int hostname_maxlen = 0xFF;
@@ -401,6 +402,7 @@ send_ping(int fd)
 		send_packet(fd, 'p', data, sizeof(data));
 	} else {
 		send_raw(fd, NULL, 0, RAW_HDR_CMD_PING);
+		lastrawping = time(NULL);
 	}
 }
 
@@ -1086,6 +1088,7 @@ client_tunnel(int tun_fd, int dns_fd)
 
 	rv = 0;
 	lastdownstreamtime = time(NULL);
+	lastrawping = time(NULL);
 	send_query_sendcnt = 0;  /* start counting now */
 
 	while (running) {
@@ -1127,6 +1130,15 @@ client_tunnel(int tun_fd, int dns_fd)
 
 		if (i < 0)
 			err(1, "select");
+
+		if (i > 0 && conn == CONN_RAW_UDP &&
+		    lastrawping + selecttimeout <= time(NULL)) {
+			/* Raw mode has no acks and no pending queries: with
+			   traffic in one direction only, select() never
+			   times out, yet each side gives up after 60 seconds
+			   without hearing from the other. */
+			send_ping(dns_fd);
+		}
 
 		if (i == 0) {
 			/* timeout */
